@@ -2,10 +2,12 @@
   Line-protocol driver for the recovery model (property C12).
   Input : one JSON object per line: {"idx":[{"name","complete"}], "states":[{"name","saved","parsable","tags":[{name,def,color,convs}]}]}
           (what the crash copy of the data directory holds, files in name order)
-  Output: {"idx":[names stacked by New, in order], "tags":[tags New loads, sorted by name]}
+  Output: {"idx":[names stacked by New, in order], "tags":[tags New loads, sorted by name],
+           "next": next stream id (Pk.Recover.nextID), "view":[[id, name of the file that serves it]] (Pk.Recover.recoverView)}
 -/
 import Lean.Data.Json
 import Pk.Model.Recover
+import Pk.Model.RecoverIdx
 import Pk.Driver.Util
 
 namespace Pk.Driver.C12
@@ -19,6 +21,7 @@ def jarr (j : Json) (k : String) : List Json :=
   | .ok (.arr a) => a.toList
   | _ => []
 def jstrs (j : Json) (k : String) : List String := (jarr j k).filterMap (fun x => x.getStr?.toOption)
+def jnats (j : Json) (k : String) : List Nat := (jarr j k).filterMap (fun x => x.getNat?.toOption)
 
 def tagOf (j : Json) : TagRec := { name := jstr j "name", defn := jstr j "def", color := jstr j "color", convs := jstrs j "convs" }
 
@@ -36,14 +39,16 @@ def stepLine (_ : Unit) (line : String) : Unit × String :=
     let stJ := sortBy (fun a b => jstr a "name" < jstr b "name") (jarr j "states")
     let names := idxJ.map (fun x => jstr x "name")
     let d : Disk := {
-      idx := idxJ.zipIdx.map (fun (x, i) => { name := i, complete := jbool x "complete", ids := [] }),
+      idx := idxJ.zipIdx.map (fun (x, i) => { name := i, complete := jbool x "complete", ids := jnats x "ids" }),
       states := stJ.zipIdx.map (fun (x, i) => { name := i, saved := jnat x "saved", parsable := jbool x "parsable",
                                                 tags := (jarr x "tags").map tagOf }) }
     let idx := (recoverIdx d).map (fun i => names.getD i "?")
     let tags := sortBy (fun (a b : TagRec) => a.name < b.name) (recoverTags d)
     let tj := tags.map fun t => Json.mkObj [("name", t.name), ("def", t.defn), ("color", t.color),
                                             ("convs", Json.arr (t.convs.map Json.str).toArray)]
-    ((), (Json.mkObj [("idx", Json.arr (idx.map Json.str).toArray), ("tags", Json.arr tj.toArray)]).compress)
+    let view := (recoverView d.idx).map fun (id, f) => Json.arr #[(id : Json), Json.str (names.getD f "?")]
+    ((), (Json.mkObj [("idx", Json.arr (idx.map Json.str).toArray), ("tags", Json.arr tj.toArray),
+                      ("next", (nextID d.idx : Json)), ("view", Json.arr view.toArray)]).compress)
 
 def main : IO Unit := Pk.Driver.runLines () stepLine
 
